@@ -46,9 +46,28 @@
 //!
 //! Part 2: the real `Kanata::start_processing_loop` thread, fed through its real channel with real
 //! sleeps on time-insensitive configurations, must emit the same ordered OS stream as the stepper.
+//!
+//! Part 3 (`c07_timed.rs`): the real thread on time-SENSITIVE configurations with enormous margins.
+//! How the thread accounts for the time it spent blocked (wake-up timestamp, `last_tick`, ticks
+//! executed before / after the event that woke it) exists only in `start_processing_loop`; part 1
+//! re-implements it in harness code and part 2 cannot see extra or missing ticks. A timed case is
+//! one of 8 feature families (tap-hold x5 variants, one-shot x5, tap-dance lazy+eager, chords v1,
+//! chords v2, sequences x3 input modes, caps-word x2, timed outputs: macro / macro-cancel-on-press /
+//! hold-for-duration / mwheel) with timeout T from {1200, 1500, 2000} ms, driven for 2 / 3 rounds of
+//! "idle wait of T+500..T+1000 ms (thread blocked; in a quarter of the rounds with a plain key held
+//! down), a probe whose events are 20..60 ms apart (control probes contain one deliberate wait of
+//! T+600 ms), settle". The ordered OS stream must equal the stepper's with the same nominal waits as
+//! ticks. The first round's first event always starts the timed action, and scenarios are drawn
+//! until the stepper's stream changes when the idle ticks are moved behind the wake event, so every
+//! case can tell correct from wrong wake-up accounting. Judged only if the stepper's stream is the
+//! same under every timing variation of +-200 ms (a third of the smallest margin) and with events
+//! bunched (short waits of 0 ms, what a stall of the processing thread does), and the measured
+//! wall-clock gaps stayed within that; a difference is retried once and reported only if it repeats.
 
 #[path = "dcommon.rs"]
 pub mod dcommon;
+#[path = "c07_timed.rs"]
+pub mod timed;
 
 use self::dcommon::{kind_class, ordered_stream};
 use crate::core::rng::Rng;
@@ -1572,6 +1591,13 @@ fn run_real_case(ctx: &Ctx, idx: u64, out: &mut CaseOut) {
         }
     }
     let c = make_real_case(ctx, idx);
+    if c.cfg.contains("override-release-on-activation yes") && c.cfg.contains("(defoverrides") {
+        // not time-insensitive: the override output is released one tick after its activation, so
+        // whether another key producing the same output arrives before or after that tick changes
+        // the ordered stream (seen as a scheduling-dependent difference: seed 12, case 27)
+        out.inc("real_configs_skipped_release_on_activation_is_time_sensitive");
+        return;
+    }
     let dir = std::path::PathBuf::from(format!("/verif/.work/{}/c07-real-{idx}", std::process::id()));
     if ctx.verbose {
         eprintln!("config:\n{}\nevents: {}\nsleeps_us: {:?}", c.cfg, render_hist(&c.h), c.sleeps_us);
@@ -1648,12 +1674,16 @@ impl Check for C07Check {
         "C07"
     }
     fn n_cases(&self, ctx: &Ctx) -> u64 {
-        n_real(ctx) + n_shaped(ctx) + n_random(ctx)
+        // (the timed real-thread cases come last so that the indices of all other cases are stable)
+        n_real(ctx) + n_shaped(ctx) + n_random(ctx) + timed::n_timed(ctx)
     }
     fn describe(&self, ctx: &Ctx, idx: u64) -> Value {
         if idx < n_real(ctx) {
             let c = make_real_case(ctx, idx);
             return json!({"kind": "real-loop", "config": c.cfg, "events": render_hist(&c.h), "sleeps_us": c.sleeps_us});
+        }
+        if idx >= n_real(ctx) + n_shaped(ctx) + n_random(ctx) {
+            return timed::describe(ctx, idx - (n_real(ctx) + n_shaped(ctx) + n_random(ctx)));
         }
         let c = make_case(ctx, idx - n_real(ctx));
         json!({"kind": c.kind, "feature": c.s.feature, "config": c.s.text, "files": c.s.files, "histories": c.hists.iter().map(|h| render_hist(h)).collect::<Vec<_>>(), "final_gaps": c.final_gaps})
@@ -1662,20 +1692,24 @@ impl Check for C07Check {
         let mut out = CaseOut::new();
         if idx < n_real(ctx) {
             run_real_case(ctx, idx, &mut out);
+        } else if idx >= n_real(ctx) + n_shaped(ctx) + n_random(ctx) {
+            timed::run_timed_case(ctx, idx - (n_real(ctx) + n_shaped(ctx) + n_random(ctx)), &mut out);
         } else {
             run_emu_case(ctx, idx - n_real(ctx), &mut out);
         }
         out
     }
     fn rule(&self) -> String {
-        "two kinds of case. (1) emulator cases: one configuration (17 hand-shaped families, one per time-dependent feature: tap-hold variants, one-shot variants, tap-dance lazy/eager, chords v1, chords v2 with chords-v2-min-idle, macro variants, sequences (sldr, sequence, defseq, three input modes), caps-word variants, hold-for-duration, on-idle, mwheel/movemouse/movemouse-accel, switch key-timing at the compression edges, zippychord with deadlines, dynamic-macro record/replay, a mixed one, one-shot-pause-processing/rapid-event-delay, zippy-reenable (zippychord with idle-reactivate-time R from {default 500,5,20,50,200,700,3000} x on-first-press-chord-deadline from {default 500,20,50,200,2000} x smart-space none/add-space-only/full x 3 chord files; histories are 1..3 scripted rounds of: opening from {non-chord tap, chord-subset key tap, rolled non-chord keys, chord key held to the deadline +-1, chord activation, ignored-key tap, nothing}, idle gap from {0,1,R/2,R-2..R+3,2R,3R+7,1000,3000,6000,9000,9990} (one in ten from {10001,12000,70000}), a quarter of the gaps interrupted by a tap of lsft which zippychord ignores, then a two-key chord attempt in either order (second key 0..10 ms after the first, one in four at deadline-2..deadline+10), one in six under shift, optional follow-up key; every other history continues with random input); then the whole non-latching action grammar at random) x 5 (quick) / 10 (thorough) physically consistent histories (random overlapping, 'calm' one-key-at-a-time, scripted openings that put the feature into its pending state; OS repeats in a quarter) with gaps drawn from {0,1,2,3,7, T-1,T,T+1 for every number T in the configuration, 1000, 10001, 70000}. Each history is executed twice on the real code in a virtual-time reproduction of the processing loop: L sleeps whenever can_block_update_idle_waiting says so, R replays L's iterations but ticks through every slept gap; plus a final gap after the last event. A difference on a zippychord configuration is attributed to the known forced-reset defect only if (i) the ticking run capped so that no stretch between two certain zippy state changes (releases of non-ignored keys) executes 10000 ticks agrees with L and (ii) L kept from blocking only inside the stretches longer than 10000 ms agrees with its ticking twin; otherwise it is reported under its structural signature. (2) real-loop cases: a time-insensitive configuration (plain keys, output chords, multi, layers, release-key/-layer, unicode, mouse buttons, overrides) is written to a scratch file, Kanata::new_arc + the real start_processing_loop thread are fed <= 24 events through the real channel with real sleeps from {0..25 ms}; the ordered OS stream is compared with the stepper's. Non-trivial = history with at least one blocked point; distinct = (action kinds or family, state features present at the blocked points, gap-length buckets).".into()
+        "three kinds of case. (1) emulator cases: one configuration (17 hand-shaped families, one per time-dependent feature: tap-hold variants, one-shot variants, tap-dance lazy/eager, chords v1, chords v2 with chords-v2-min-idle, macro variants, sequences (sldr, sequence, defseq, three input modes), caps-word variants, hold-for-duration, on-idle, mwheel/movemouse/movemouse-accel, switch key-timing at the compression edges, zippychord with deadlines, dynamic-macro record/replay, a mixed one, one-shot-pause-processing/rapid-event-delay, zippy-reenable (zippychord with idle-reactivate-time R from {default 500,5,20,50,200,700,3000} x on-first-press-chord-deadline from {default 500,20,50,200,2000} x smart-space none/add-space-only/full x 3 chord files; histories are 1..3 scripted rounds of: opening from {non-chord tap, chord-subset key tap, rolled non-chord keys, chord key held to the deadline +-1, chord activation, ignored-key tap, nothing}, idle gap from {0,1,R/2,R-2..R+3,2R,3R+7,1000,3000,6000,9000,9990} (one in ten from {10001,12000,70000}), a quarter of the gaps interrupted by a tap of lsft which zippychord ignores, then a two-key chord attempt in either order (second key 0..10 ms after the first, one in four at deadline-2..deadline+10), one in six under shift, optional follow-up key; every other history continues with random input); then the whole non-latching action grammar at random) x 5 (quick) / 10 (thorough) physically consistent histories (random overlapping, 'calm' one-key-at-a-time, scripted openings that put the feature into its pending state; OS repeats in a quarter) with gaps drawn from {0,1,2,3,7, T-1,T,T+1 for every number T in the configuration, 1000, 10001, 70000}. Each history is executed twice on the real code in a virtual-time reproduction of the processing loop: L sleeps whenever can_block_update_idle_waiting says so, R replays L's iterations but ticks through every slept gap; plus a final gap after the last event. A difference on a zippychord configuration is attributed to the known forced-reset defect only if (i) the ticking run capped so that no stretch between two certain zippy state changes (releases of non-ignored keys) executes 10000 ticks agrees with L and (ii) L kept from blocking only inside the stretches longer than 10000 ms agrees with its ticking twin; otherwise it is reported under its structural signature. (2) real-loop cases: a time-insensitive configuration (plain keys, output chords, multi, layers, release-key/-layer, unicode, mouse buttons, overrides) is written to a scratch file, Kanata::new_arc + the real start_processing_loop thread are fed <= 24 events through the real channel with real sleeps from {0..25 ms}; the ordered OS stream is compared with the stepper's. (3) timed real-loop cases (8 quick / 64 thorough, the last indices; family = index mod 8 so that every family is in every run): one time-dependent feature (tap-hold / -press / -release / -release-timeout / -press-timeout; one-shot / -press / -release / -press-pcancel / -release-pcancel; tap-dance + tap-dance-eager; defchords; defchordsv2; sldr + defseq with sequence-timeout in the three input modes; caps-word / -toggle; macro with a delay / macro-cancel-on-press / hold-for-duration / mwheel) with timeout T from {1200,1500,2000} ms on a real start_processing_loop thread, 2 (quick) / 3 (thorough) rounds of: [in a quarter of the rounds a plain key is pressed and stays down], real idle sleep of T+500..T+1000 ms during which kanata must be idle (the thread blocks on the channel), a probe from the family's list (4..7 per family: events 20..60 ms apart; 'fast' probes start the timed action with the first event after the gap and finish well inside T - the tap, the one-shot followed by a key, the double tap, the chord, the sequence, the word under caps-word, a key inside the macro delay; control probes contain one deliberate wait of T+600 ms - the hold, the expired one-shot, two separate taps, the too-slow chord), settle (101 WakeUp events flush the channel, then poll until kanata is idle). Round 1 always uses a fast probe. Up to 8 candidate scenarios are drawn per case until one is robust (the stepper's stream is unchanged when any single wait is 200 ms longer when all short waits are 1 ms / the over wait 200 ms shorter, and when any one / all short waits are 0 ms, i.e. events handled back to back as after a stall of the processing thread) and sensitive (the stepper's stream changes when the ticks of each idle wait are executed after the event that ends it). Oracle: ordered OS stream of the real thread == the stepper's on the same history with each wait as that many ticks; a difference is re-run once on a fresh thread and reported only if both runs are conclusive and differ in the same way (signature real-loop-after-idle:idle-gap-ticks-run-after-the-wake-event if the stream equals the stepper's with the idle ticks moved behind the wake event, else real-loop-after-idle:timed-outcome-differs). Non-trivial = history with at least one blocked point; distinct = (action kinds or family, state features present at the blocked points, gap-length buckets); for timed cases (family, variant, probe, plain key held).".into()
     }
     fn assumptions(&self) -> Vec<String> {
         vec![
             "the emulator models one admissible schedule of the real loop: integer-millisecond time, zero processing time, an event is visible to the iteration that runs at its arrival time; ms_elapsed is what handle_time_ticks would return under that schedule".into(),
             "R ticks g times where L slept g ms and then performs the same wake-up (event, one tick); a free-running ticker is not used as reference because its one-tick phase shift on wake legitimately changes outcomes that sit exactly on a timeout".into(),
             "the predicate turning false during R's gap ticks is counted, not reported, unless an output or a later difference follows".into(),
-            "real-loop cases use only actions whose result does not depend on millisecond timing, no OS repeats, and at most 24 events (so the 32-slot queue cannot overflow under any scheduling); wall-clock trouble is inconclusive, never a violation".into(),
+            "real-loop cases use only actions whose result does not depend on millisecond timing (configurations with defoverrides and override-release-on-activation yes are skipped: the override output is released one tick after activation, so the stream depends on whether another key with the same output arrives before or after that tick), no OS repeats, and at most 24 events (so the 32-slot queue cannot overflow under any scheduling); wall-clock trouble is inconclusive, never a violation".into(),
+            "timed real-loop cases: the stepper that ticks through the nominal gaps is the reference (ticking through an idle gap is what the property says sleeping must equal); only the ordered OS stream is compared, not output times. All timeouts are >= 1200 ms, deliberate over-waits exceed the timeout by 600 ms and the short waits of a probe add up to < T - 600 ms; a run is judged only if in every probe the measured gaps between the sends exceeded the nominal ones by <= 200 ms in total (a third of that margin), no idle wait lasted more than 600 ms longer than nominal, kanata reported idle at the end of every idle wait, and the scenario's stepper outcome is the same under +-200 ms variations of every wait and with any / all short waits reduced to 0 ms; anything else is inconclusive, never a violation. Gaps are measured on the sending side; a stall of the processing thread itself cannot be measured, therefore a difference must repeat on a second fresh thread before it is reported".into(),
+            "timed real-loop cases cover the wake-up path of the blocking branch only where a time-dependent action is started by, or shortly after, the event that ends the blocked gap; zippychord, dynamic macros, on-idle and switch key-timing are not among the timed families (their outcome on the ordered stream does not depend on where the idle ticks go, or they keep the loop from blocking)".into(),
             "zippychord's state is not visible from outside: the zippy-reenable counters (chord expanded / typed plain after a disturbance, gap slept) are read off the output of run L (a backspace during the chord attempt = expansion) and are evidence that both sides of the reactivation time were reached, not an oracle; whether a chord must expand is C20's question".into(),
             "a 'certain zippy state change' is the release of a key zippychord does not ignore reaching the OS (zch_release_key always resets the counter; a press does so only while zippy is enabled, which cannot be seen); stretches are therefore over-estimated, which can only make the capped run tick less, never let the forced reset fire in it".into(),
             "latching virtual-key uses, cmd, clipboard and live-reload actions are not generated; a crash of the code under test ends the case and is C02's to report".into(),
@@ -1723,6 +1757,13 @@ impl Check for C07Check {
             ("zr_opening:chord-activation", 20),
         ];
         v.push(("blocked_in:random-grammar", 200));
+        // part 3: time-sensitive scenarios on the real thread that were conclusive (measured gaps
+        // within the tolerance) and whose outcome depends on where the ticks of the idle gap go
+        v.push(("timed_cases_judged", ctx.tier.sel(5, 40)));
+        v.push(("timed_rounds_judged", ctx.tier.sel(10, 120)));
+        v.push(("timed_rounds_first_event_after_blocked_gap_starts_timed_action", ctx.tier.sel(6, 70)));
+        v.push(("timed_cases_sensitive_to_wake_tick_accounting", ctx.tier.sel(5, 40)));
+        v.push(("timed_idle_ms_spent_blocked", ctx.tier.sel(15_000, 200_000)));
         v
     }
     fn watchdog_s(&self, _ctx: &Ctx) -> u64 {
